@@ -1,5 +1,5 @@
 (* LookupFacts.v — lookups are coherent with listings and never ambiguous (C15). *)
-From Coq Require Import List Arith Bool String Lia.
+From Coq Require Import List Arith Bool String Lia Permutation.
 From PyHam Require Import Tax Ortho Loader Lookup.
 From PyHam.proofs Require Import TaxFacts NewickFacts.
 Import ListNotations.
@@ -171,3 +171,42 @@ Qed.
 
 Theorem mrca_set_too_small t st gs : List.length gs < 2 -> get_mrca_genome_set t st gs = Err ValueError.
 Proof. destruct gs as [|x [|y r]]; simpl; intros H; try reflexivity; lia. Qed.
+
+(* ---------- the order in which a set of genomes is enumerated does not matter ---------- *)
+Lemma anc_of_antisym a b : anc_of a b -> anc_of b a -> a = b.
+Proof.
+  intros [s ->] [s' H]. rewrite app_assoc in H. apply (f_equal (@List.length nat)) in H.
+  rewrite app_length, app_length in H. destruct s; [reflexivity|]. simpl in H. lia.
+Qed.
+
+(* Python: set(...) then the common ancestor of its elements, enumerated in whatever order the set yields them *)
+Definition mrca_of (l : list taxon) : option taxon :=
+  match l with [] => None | x :: r => Some (fold_left lcs r x) end.
+
+Lemma fold_lcs_below r x r' x' : (forall e, In e (x' :: r') -> In e (x :: r)) -> anc_of (fold_left lcs r x) (fold_left lcs r' x').
+Proof.
+  intros H. apply fold_lcs_common.
+  - apply fold_lcs_is_anc. apply H. left. reflexivity.
+  - apply Forall_forall. intros e He. apply fold_lcs_is_anc. apply H. right. exact He.
+Qed.
+
+Theorem mrca_of_same_elements l l' : l <> [] -> l' <> [] -> (forall e, In e l <-> In e l') -> mrca_of l = mrca_of l'.
+Proof.
+  destruct l as [|x r], l' as [|x' r']; try congruence. intros _ _ H. cbn [mrca_of]. f_equal.
+  apply anc_of_antisym; apply fold_lcs_below; intros e He; apply H; exact He.
+Qed.
+
+Theorem mrca_of_perm l l' : Permutation l l' -> mrca_of l = mrca_of l'.
+Proof.
+  intros HP. destruct l as [|x r].
+  - apply Permutation_nil in HP. subst. reflexivity.
+  - destruct l' as [|x' r']; [apply Permutation_sym, Permutation_nil in HP; discriminate|].
+    apply mrca_of_same_elements; try discriminate. intros e. split; apply Permutation_in; [exact HP|apply Permutation_sym; exact HP].
+Qed.
+
+Theorem mrca_set_perm t st gs gs' : Permutation gs gs' -> get_mrca_genome_set t st gs = get_mrca_genome_set t st gs'.
+Proof.
+  intros HP. pose proof (Permutation_length HP) as Hl. pose proof (mrca_of_perm _ _ HP) as Hm.
+  destruct gs as [|x [|y r]], gs' as [|x' [|y' r']]; try discriminate; try reflexivity.
+  unfold get_mrca_genome_set. cbn [mrca_of] in Hm. injection Hm as E. f_equal. exact E.
+Qed.
